@@ -21,7 +21,7 @@ ASSUME TLCSet(7, ndJsonDeserialize(IOEnv.TRACE))
 Log == TLCGet(7)
 
 ModelledOps == {"CreateFile", "RemoveFile", "CreateSub", "CreateNamed", "Copy", "Move", "Remove", "RemoveKind", "Rename",
-                "SetText", "RemoveText", "SetRef", "SetAttr", "RemoveAttr", "SetComment", "AddToFile", "RemoveFromFile", "Duplicate"}
+                "SetText", "RemoveText", "SetRef", "SetAttr", "RemoveAttr", "SetComment", "AddToFile", "RemoveFromFile", "Duplicate", "Load"}
 
 \* observation -> specification state
 Abs(o) ==
@@ -36,7 +36,7 @@ Abs(o) ==
 AllKnown(o) == \A i \in 1..Len(o.n) : o.n[i].k \in DOMAIN Schema
 SameRes(r1, r2) == r1.t = r2.t /\ (r1.t = "err" => r1.v = r2.v)
 Conforms(pre, ev, res, post) ==
-  IF ev.op \notin ModelledOps \/ ~AllKnown(pre) \/ ~AllKnown(post) THEN "unmodelled"
+  IF ev.op \notin ModelledOps \/ ~AllKnown(pre) \/ ~AllKnown(post) \/ (ev.op = "Load" /\ ev.k \notin DOMAIN LoadDocs) THEN "unmodelled"
   ELSE IF \E out \in Do(Abs(pre), ev) : SameRes(out.res, res) /\ out.st = Abs(post) THEN "yes" ELSE "no"
 
 Report(j, kind, name, kf) == PrintT(<<"V", ToJson([step |-> j, kind |-> kind, pred |-> name, prop |-> P!PropertyOf(name),
